@@ -9,7 +9,7 @@ divisors have the capacity their indices need.  See DESIGN.md section 3, C01.
 import ast
 
 from ..core import Rule
-from ..model import AnalysisError, dotted, unparse, short, ancestors
+from ..model import AnalysisError, dotted, unparse, short, ancestors, itext
 from ..cfg import cfg_of
 from ..terms import fn_terms, walk, show
 from ..schemes import discover, flatten, is_urandom, is_builder
@@ -183,7 +183,7 @@ def check(repo):
                     trap_ok = True
                     for i, a in enumerate(t[2]):
                         if i < len(attrs) and attrs[i]:
-                            if a[0] == "cont":
+                            if a[0] in ("cont", "comp"):
                                 # SSE-2: a list of labels
                                 vals = {nt.n(lf.value) for lf in flatten(repo, a)}
                                 subst[(tk_param, attrs[i])] = ("LISTOF", tuple(sorted(vals, key=repr)))
@@ -661,8 +661,17 @@ def _check_blocks(repo, r2, s, enc, search, fte, fts, L):
     if s.name == "CJJ14.Pi2Lev":
         # the reader's table param_by_level[level][is pointer block]
         table = None
-        for st in ast.walk(search.node):
-            if isinstance(st, ast.Assign) and isinstance(st.value, ast.List) and all(isinstance(e, (ast.List, ast.Tuple)) for e in st.value.elts) and len(st.value.elts) >= 2:
+        cand_values = [x for x in ast.walk(search.node) if isinstance(x, (ast.List, ast.Tuple))]
+        # a module-level (or class-level) constant table used by _Search
+        for nm in {x.id for x in ast.walk(search.node) if isinstance(x, ast.Name)}:
+            if nm in search.module.globals:
+                cand_values.append(search.module.globals[nm])
+        for x in ast.walk(search.node):
+            if isinstance(x, ast.Attribute) and isinstance(x.value, ast.Name) and x.value.id in ("self", "cls", search.cls.name if search.cls else "") and search.cls and x.attr in search.cls.attrs:
+                cand_values.append(search.cls.attrs[x.attr])
+        for value in cand_values:
+            st = ast.Assign(targets=[], value=value)
+            if isinstance(st.value, (ast.List, ast.Tuple)) and st.value.elts and all(isinstance(e, (ast.List, ast.Tuple)) for e in st.value.elts) and len(st.value.elts) >= 2:
                 rows = []
                 for e in st.value.elts:
                     row = []
@@ -709,8 +718,9 @@ def _check_pi2lev_split(repo, r3, s):
     L = Lengths(repo, s)
     ft = fn_terms(repo, enc)
     chain = None
+    NLEN = "len(%s[keyword])" % enc.params[2]
     for st in ast.walk(enc.node):
-        if isinstance(st, ast.If) and isinstance(st.test, ast.Compare) and "len(database[keyword])" in unparse(st.test) and \
+        if isinstance(st, ast.If) and isinstance(st.test, ast.Compare) and NLEN in itext(enc, st.test) and \
                 isinstance(getattr(st, "_parent", None), ast.For) and st.orelse and isinstance(st.orelse[0], ast.If):
             chain = st
     if not r3.require(chain is not None, enc, "case split", "Pi2Lev._Enc: the small/medium/large case split vanished"):
@@ -724,12 +734,13 @@ def _check_pi2lev_split(repo, r3, s):
 
     def bounds(test):
         """(lower term or None, lower strict?, upper term or None, upper inclusive?) for tests on n = len(database[keyword])"""
-        t = test
+        from ..model import inline_locals
+        t = inline_locals(enc.node, test)
         if not isinstance(t, ast.Compare):
             return None
         ops = [type(o) for o in t.ops]
         operands = [t.left] + list(t.comparators)
-        idx = next((i for i, o in enumerate(operands) if "len(database[keyword])" == unparse(o)), None)
+        idx = next((i for i, o in enumerate(operands) if NLEN == unparse(o)), None)
         if idx is None:
             return None
         lo = up = None
@@ -759,23 +770,24 @@ def _check_pi2lev_split(repo, r3, s):
     last = branches[-1]
     r3.require(bool(last.orelse) and isinstance(last.orelse[-1], ast.Raise), enc, "too large refused", "lists beyond the large case are not refused")
     # reservation conditions
-    pre = [st for st in ast.walk(enc.node) if isinstance(st, ast.If) and isinstance(st.test, ast.Compare) and "len(database[keyword])" in unparse(st.test)
+    pre = [st for st in ast.walk(enc.node) if isinstance(st, ast.If) and isinstance(st.test, ast.Compare) and NLEN in itext(enc, st.test)
            and st is not chain and st not in branches and any(isinstance(x, ast.AugAssign) for x in st.body)]
     if r3.require(len(pre) == 2, enc, "slot reservation", "Pi2Lev._Enc: expected two reservation conditions for the array length, found %d" % len(pre)):
         nid2 = ft.cfg.nodes_of(pre[0])[0]
         got = []
+        from ..model import inline_locals as _il
         for p in pre:
-            t = p.test
-            if len(t.ops) == 1 and isinstance(t.ops[0], ast.Gt) and unparse(t.left) == "len(database[keyword])":
-                got.append(L.value(ft.term(t.comparators[0], nid2)))
+            t = _il(enc.node, p.test)
+            if len(t.ops) == 1 and isinstance(t.ops[0], ast.Gt) and unparse(t.left) == NLEN:
+                got.append(L.value(ft.term(p.test.comparators[0], nid2)))
         want = [bs[1][0], bs[2][0]]
         r3.require(len(got) == 2 and sorted(x.canon() for x in got) == sorted(x.canon() for x in want), enc, "reservation matches the case split",
                    "Pi2Lev._Enc reserves array slots for n > %s but the medium/large cases start at n > %s: lists in between get no slots (pop from an empty "
                    "list) or waste them" % ([x.canon() for x in got], [x.canon() for x in want]))
         # amounts: ceil(n / B) and ceil(n / (B * B'))
-        amounts = [unparse(x.value) for p in pre for x in p.body if isinstance(x, ast.AugAssign)]
+        amounts = [itext(enc, x.value) for p in pre for x in p.body if isinstance(x, ast.AugAssign)]
         B, Bp = L.slot_value("param_B"), L.slot_value("param_B_prime")
-        a_ok = len(amounts) == 2 and "math.ceil(len(database[keyword]) / self.config.param_B)" in amounts[0].replace("(self.config.param_B)", "self.config.param_B") \
+        a_ok = len(amounts) == 2 and ("math.ceil(%s / self.config.param_B)" % NLEN) in amounts[0].replace("(self.config.param_B)", "self.config.param_B") \
             and "param_B_prime" in amounts[1] and "param_B " in amounts[1] + " " and "math.ceil" in amounts[1]
         r3.require(a_ok, enc, "reserved amounts", "Pi2Lev._Enc reserves %s slots, expected ceil(n/B) and ceil(n/(B*B'))" % amounts)
 
@@ -788,14 +800,29 @@ def _range_arg(ft, node_stmt_iter, nid):
     return None
 
 
+def _level_count_defs(ft):
+    """Definitions of the level count t = ceil(log2(N)) (by shape, whatever the variable is called)."""
+    out = []
+    for d in ft.defs:
+        if d.kind != "assign":
+            continue
+        try:
+            t = ft.def_term(d)
+        except Exception:
+            continue
+        if t[0] == "call" and t[1] in ("math.ceil", "ceil") and t[2] and t[2][0][0] == "call" and t[2][0][1] in ("math.log2", "log2"):
+            out.append(d)
+    return out or [d for d in ft.defs if d.var == "t" and d.kind == "assign"]
+
+
 def _check_capacity(repo, r4, schemes):
     for s in schemes:
         enc = s.method("_Enc")
         ft = fn_terms(repo, enc)
         if s.name in ("CT14.Pi", "ANSS16.Scheme3"):
-            tdefs = [d for d in ft.defs if d.var == "t" and d.kind == "assign"]
+            tdefs = _level_count_defs(ft)
             if not tdefs:
-                r4.fail_fn(enc, enc.node, "level count variable", "%s: level count t vanished" % s.name)
+                r4.fail_fn(enc, enc.node, "level count variable", "%s: level count t = ceil(log2(..)) vanished" % s.name)
                 continue
             t_term = ft.def_term(tdefs[0])
             want = ("binop", "Add", t_term, ("const", 1))
@@ -809,10 +836,15 @@ def _check_capacity(repo, r4, schemes):
                 if n.kind == "for" and isinstance(st.iter, ast.Call) and dotted(st.iter.func) == "range" and len(st.iter.args) == 1 and \
                         not any(isinstance(a, ast.For) for a in ancestors(st)):
                     sites.append(("level loop", ft.term(st.iter.args[0], n.id), st))
-            r4.require(len(sites) >= 3, enc, "level sites", "%s: expected allocation, padding loop and table loop over the levels, found %d" % (s.name, len(sites)))
+            allocs = [x for x in sites if x[0].startswith("allocation")]
+            r4.require(len(allocs) >= 1 and len(sites) >= 2, enc, "level sites",
+                       "%s: expected the allocation of the level lists and at least one loop over the levels, found %d site(s)" % (s.name, len(sites)))
+            alloc_names = {tg.id for _w, _t, st in allocs for tg in st.targets if isinstance(tg, ast.Name)}
             for what, term, st in sites:
                 desc = {"scheme": s.name, "site": what, "range": show(term, maxdepth=5)[:100]}
-                if term == want:
+                # len(<the allocated list of level lists>) is t+1 by the allocation site's own obligation
+                by_len = term[0] == "call" and term[1] == "len" and len(term[2]) == 1 and term[2][0][0] == "cont" and term[2][0][1] in alloc_names
+                if term == want or (by_len and what != "allocation of the level lists"):
                     r4.ok(desc)
                 else:
                     r4.fail_fn(enc, st, "%s covers t+1 levels" % what,
@@ -820,7 +852,7 @@ def _check_capacity(repo, r4, schemes):
                                "owning 2^t postings (e.g. a one-keyword database of 2^k identifiers, or N = 1) indexes past the end" % (s.name, what, show(term, maxdepth=4)[:80]), witness=desc)
         if s.name == "ANSS16.Scheme3":
             # width of the encrypted list size: n_w <= 2^t needs t+1 bits
-            tdefs = [d for d in ft.defs if d.var == "t" and d.kind == "assign"]
+            tdefs = _level_count_defs(ft)
             t_term = ft.def_term(tdefs[0]) if tdefs else None
             widths = []
             for n in ft.cfg.nodes:
